@@ -11,9 +11,24 @@ Open Scope Z_scope.
 Definition same_shape (b b' : pbox) : Prop :=
   pk b' = pk b /\ pname b' = pname b /\ pdom b' = pdom b /\ pcod b' = pcod b.
 Definition same_flags (b b' : pbox) : Prop := pdag b' = pdag b /\ pmixed b' = pmixed b.
-Definition no_flag_trigger (cls : dclass) (vars : list var) (d : pdiagram) : bool :=
-  forallb (fun b => negb (f11b_box cls vars b) && negb (f11c_box b)) (dboxes d).
+Definition no_flag_trigger (fx : fixes) (cls : dclass) (vars : list var) (d : pdiagram) : bool :=
+  forallb (fun b => negb (f11b_box fx cls vars b) && negb (f11c_box fx b)) (dboxes d).
 Definition closing (s : xsigma) : Prop := Forall (fun xv => poly_vars (epoly (snd xv)) = []) s.
+
+(* the witnesses of the repairable findings, shared by the `_refuted` (pinned)
+   and `_fixed` (repaired) lemmas *)
+Definition wit_form : sform := SSingle 1 (PE false (poly_const (Q2Qc 2))).
+(* F11b: scalar(s1, is_mixed=True) *)
+Definition wit_f11b_scalar : pbox := PB KQScalar 0 [] [] false true (DScalar (PE true (poly_var 1))).
+(* F11b: a pure circuit.Box with data s1 *)
+Definition wit_f11b_pure : pbox := PB KGen 0 [2] [2] false false (DScalar (PE true (poly_var 1))).
+(* F11c: ClassicalGate(..., data=[s1]).dagger() *)
+Definition wit_f11c_gate : pbox := PB KClassical 0 [1] [1] true false (DList [PE true (poly_var 1)]).
+(* F11h: Bits(0) *)
+Definition wit_f11h_bits : pdiagram := PD [] [1] [PB KClassical 7 [] [1] false false DNone] [0].
+(* F11i / F11j: the Sum of the single term Box(data=s1) *)
+Definition wit_f11i_sum : psum :=
+  PS [] [] [PD [] [] [PB KGen 0 [] [] false false (DScalar (PE true (poly_var 1)))] [0]].
 
 (* ------------------------------------------------------------ list helpers *)
 Lemma ty_eqb_eq : forall a b, ty_eqb a b = true <-> a = b.
@@ -89,9 +104,9 @@ Lemma nil_if_no_In : forall {A} (l : list A), (forall y, ~ In y l) -> l = [].
 Proof. intros A [|x l] H; [reflexivity|]. exfalso. apply (H x). left. reflexivity. Qed.
 
 (* ------------------------------------------------------------ 1. shapes *)
-Lemma box_subs_shape_l : forall cls f b b', box_subs cls f b = XOk b' -> same_shape b b'.
+Lemma box_subs_shape_l : forall fx cls f b b', box_subs fx cls f b = XOk b' -> same_shape b b'.
 Proof.
-  intros cls f b b' H. unfold box_subs in H. unfold same_shape.
+  intros fx cls f b b' H. unfold box_subs in H. unfold same_shape.
   destruct (pk b) eqn:K;
     repeat match type of H with
            | context [if ?c then _ else _] => destruct c
@@ -100,10 +115,10 @@ Proof.
     inversion H; subst; cbn; rewrite ?K; auto.
 Qed.
 
-Lemma box_lambdify_shape_l : forall cls syms vals b b',
-  box_lambdify cls syms vals b = XOk b' -> same_shape b b'.
+Lemma box_lambdify_shape_l : forall fx cls syms vals b b',
+  box_lambdify fx cls syms vals b = XOk b' -> same_shape b b'.
 Proof.
-  intros cls syms vals b b' H. unfold box_lambdify in H. unfold same_shape.
+  intros fx cls syms vals b b' H. unfold box_lambdify in H. unfold same_shape.
   destruct (pk b) eqn:K;
     repeat match type of H with
            | context [if ?c then _ else _] => destruct c
@@ -113,30 +128,34 @@ Proof.
 Qed.
 
 (* ------------------------------------------------------------ 2. flags *)
-Lemma box_subs_flags_l : forall cls f b b',
-  box_wf b = true -> f11b_box cls (form_vars f) b = false -> f11c_box b = false ->
-  box_subs cls f b = XOk b' -> same_flags b b'.
+Lemma box_subs_flags_l : forall fx cls f b b',
+  box_wf b = true -> f11b_box fx cls (form_vars f) b = false -> f11c_box fx b = false ->
+  box_subs fx cls f b = XOk b' -> same_flags b b'.
 Proof.
-  intros cls f b b' W B C H.
+  intros fx cls f b b' W B C H.
   unfold box_wf in W. apply andb_prop in W. destruct W as [_ W].
   unfold box_subs in H. unfold f11b_box in B. unfold f11c_box in C. unfold same_flags.
   destruct (pk b) eqn:K.
   - (* KGen *)
     destruct (guard (form_vars f) b) eqn:G.
     + inversion H; subst. unfold rebuild_gen; cbn [pdag pmixed]. split; [reflexivity|].
+      destruct (fx_b fx); [reflexivity|].
       destruct cls; try reflexivity. cbn in B. destruct (pmixed b); [reflexivity | discriminate].
     + inversion H; subst. split; reflexivity.
   - inversion H; subst. unfold rebuild_param; cbn [pdag pmixed]. rewrite K.
     destruct (pdag b), (pmixed b); cbn in W; try discriminate; split; reflexivity.
-  - inversion H; subst. unfold rebuild_param; cbn [pdag pmixed]. rewrite K. rewrite B.
-    destruct (pdag b); cbn in W; try discriminate; split; reflexivity.
+  - inversion H; subst. unfold rebuild_param; cbn [pdag pmixed]. rewrite K.
+    destruct (fx_b fx), (pdag b), (pmixed b); cbn in W, B; try discriminate; split; reflexivity.
   - inversion H; subst. unfold rebuild_param; cbn [pdag pmixed]. rewrite K.
     destruct (pdag b), (pmixed b); cbn in W; try discriminate; split; reflexivity.
   - inversion H; subst. unfold rebuild_param; cbn [pdag pmixed]. rewrite K.
     destruct (pdag b), (pmixed b); cbn in W; try discriminate; split; reflexivity.
-  - destruct (pdat b); try discriminate; inversion H; subst;
-      unfold rebuild_classical; cbn [pdag pmixed]; rewrite C;
-      destruct (pmixed b); cbn in W; try discriminate; split; reflexivity.
+  - assert (Hb' : b' = b \/ exists d', b' = rebuild_classical fx b d').
+    { destruct (pdat b); [destruct (fx_h fx); [left; congruence | discriminate] | |];
+        right; eexists; inversion H; reflexivity. }
+    destruct Hb' as [Hb'|[d' Hb']]; subst b'; [split; reflexivity|].
+    unfold rebuild_classical; cbn [pdag pmixed].
+    destruct (fx_c fx), (pdag b), (pmixed b); cbn in W, C; try discriminate; split; reflexivity.
   - inversion H; subst. unfold rebuild_spider; cbn [pdag pmixed].
     destruct (pdag b), (pmixed b); cbn in W; try discriminate; split; reflexivity.
   - inversion H; subst. unfold rebuild_spider; cbn [pdag pmixed].
@@ -207,95 +226,89 @@ Proof.
   split; [exact W1|]. intros b Hb. eapply forallb_In; eassumption.
 Qed.
 
-Lemma subs_preserves_dom_cod_kinds_l : forall cls f d d',
-  wf d = true -> dsubs cls f d = XOk d' ->
+Lemma subs_preserves_dom_cod_kinds_l : forall fx cls f d d',
+  wf d = true -> dsubs fx cls f d = XOk d' ->
   ddom d' = ddom d /\ dcod d' = dcod d /\ doffs d' = doffs d /\
   Forall2 same_shape (dboxes d) (dboxes d') /\ wf d' = true.
 Proof.
-  intros cls f d d' W H. unfold dsubs in H.
-  destruct (dmap_spec_l _ _ _ W (box_subs_shape_l cls f) H) as [H1 [H2 [H3 [H4 H5]]]].
+  intros fx cls f d d' W H. unfold dsubs in H.
+  destruct (dmap_spec_l _ _ _ W (box_subs_shape_l fx cls f) H) as [H1 [H2 [H3 [H4 H5]]]].
   repeat split; try assumption.
   eapply Forall2_mono_in; [exact H4|]. intros a b _ Hab. eapply box_subs_shape_l; exact Hab.
 Qed.
 
-Lemma lambdify_preserves_dom_cod_kinds_l : forall cls syms vals d d',
-  wf d = true -> dlambdify cls syms vals d = XOk d' ->
+Lemma lambdify_preserves_dom_cod_kinds_l : forall fx cls syms vals d d',
+  wf d = true -> dlambdify fx cls syms vals d = XOk d' ->
   ddom d' = ddom d /\ dcod d' = dcod d /\ doffs d' = doffs d /\
   Forall2 same_shape (dboxes d) (dboxes d') /\ wf d' = true.
 Proof.
-  intros cls syms vals d d' W H. unfold dlambdify in H.
-  destruct (dmap_spec_l _ _ _ W (box_lambdify_shape_l cls syms vals) H) as [H1 [H2 [H3 [H4 H5]]]].
+  intros fx cls syms vals d d' W H. unfold dlambdify in H.
+  destruct (dmap_spec_l _ _ _ W (box_lambdify_shape_l fx cls syms vals) H) as [H1 [H2 [H3 [H4 H5]]]].
   repeat split; try assumption.
   eapply Forall2_mono_in; [exact H4|]. intros a b _ Hab. eapply box_lambdify_shape_l; exact Hab.
 Qed.
 
-Lemma no_flag_trigger_inv : forall cls vars d b,
-  no_flag_trigger cls vars d = true -> In b (dboxes d) ->
-  f11b_box cls vars b = false /\ f11c_box b = false.
+Lemma no_flag_trigger_inv : forall fx cls vars d b,
+  no_flag_trigger fx cls vars d = true -> In b (dboxes d) ->
+  f11b_box fx cls vars b = false /\ f11c_box fx b = false.
 Proof.
-  intros cls vars d b H Hb. unfold no_flag_trigger in H.
+  intros fx cls vars d b H Hb. unfold no_flag_trigger in H.
   apply (forallb_In _ _ _ H) in Hb. apply andb_prop in Hb. destruct Hb as [H1 H2].
   apply negb_true_iff in H1. apply negb_true_iff in H2. split; assumption.
 Qed.
 
-Lemma subs_preserves_flags_l : forall cls f d d',
-  dwf d = true -> no_flag_trigger cls (form_vars f) d = true ->
-  dsubs cls f d = XOk d' -> Forall2 same_flags (dboxes d) (dboxes d').
+Lemma subs_preserves_flags_l : forall fx cls f d d',
+  dwf d = true -> no_flag_trigger fx cls (form_vars f) d = true ->
+  dsubs fx cls f d = XOk d' -> Forall2 same_flags (dboxes d) (dboxes d').
 Proof.
-  intros cls f d d' W N H. apply dwf_inv in W. destruct W as [W Wb]. unfold dsubs in H.
-  destruct (dmap_spec_l _ _ _ W (box_subs_shape_l cls f) H) as [_ [_ [_ [H4 _]]]].
+  intros fx cls f d d' W N H. apply dwf_inv in W. destruct W as [W Wb]. unfold dsubs in H.
+  destruct (dmap_spec_l _ _ _ W (box_subs_shape_l fx cls f) H) as [_ [_ [_ [H4 _]]]].
   eapply Forall2_mono_in; [exact H4|]. intros a b Ha Hab.
-  destruct (no_flag_trigger_inv _ _ _ _ N Ha) as [N1 N2].
+  destruct (no_flag_trigger_inv _ _ _ _ _ N Ha) as [N1 N2].
   eapply box_subs_flags_l; [apply Wb; exact Ha | exact N1 | exact N2 | exact Hab].
 Qed.
 
 Lemma subs_flags_refuted_mixed_l : exists f b b',
-  box_wf b = true /\ box_subs CCircuit f b = XOk b' /\ pmixed b = true /\ pmixed b' = false.
+  box_wf b = true /\ box_subs pinned CCircuit f b = XOk b' /\ pmixed b = true /\ pmixed b' = false.
 Proof.
-  exists (SSingle 1 (PE false (poly_const (Q2Qc 2)))).
-  exists (PB KQScalar 0 [] [] false true (DScalar (PE true (poly_var 1)))).
-  eexists. repeat split.
+  exists wit_form. exists wit_f11b_scalar. eexists. repeat split.
 Qed.
 
 Lemma subs_flags_refuted_pure_l : exists f b b',
-  box_wf b = true /\ box_subs CCircuit f b = XOk b' /\ pmixed b = false /\ pmixed b' = true.
+  box_wf b = true /\ box_subs pinned CCircuit f b = XOk b' /\ pmixed b = false /\ pmixed b' = true.
 Proof.
-  exists (SSingle 1 (PE false (poly_const (Q2Qc 2)))).
-  exists (PB KGen 0 [2] [2] false false (DScalar (PE true (poly_var 1)))).
-  eexists. repeat split.
+  exists wit_form. exists wit_f11b_pure. eexists. repeat split.
 Qed.
 
 Lemma subs_flags_refuted_dagger_l : exists f b b',
-  box_wf b = true /\ box_subs CCircuit f b = XOk b' /\ pdag b = true /\ pdag b' = false.
+  box_wf b = true /\ box_subs pinned CCircuit f b = XOk b' /\ pdag b = true /\ pdag b' = false.
 Proof.
-  exists (SSingle 1 (PE false (poly_const (Q2Qc 2)))).
-  exists (PB KClassical 0 [1] [1] true false (DList [PE true (poly_var 1)])).
-  eexists. repeat split.
+  exists wit_form. exists wit_f11c_gate. eexists. repeat split.
 Qed.
 
 (* ------------------------------------------------------------ 5. totality *)
-Lemma box_subs_total : forall cls f b, f11h_box b = false -> exists b', box_subs cls f b = XOk b'.
+Lemma box_subs_total : forall fx cls f b, f11h_box fx b = false -> exists b', box_subs fx cls f b = XOk b'.
 Proof.
-  intros cls f b H. unfold f11h_box in H. unfold box_subs.
+  intros fx cls f b H. unfold f11h_box in H. unfold box_subs.
   destruct (pk b); try (eexists; reflexivity).
   - destruct (guard (form_vars f) b); eexists; reflexivity.
-  - destruct (pdat b); try discriminate; eexists; reflexivity.
+  - destruct (pdat b); [|eexists; reflexivity|eexists; reflexivity].
+    destruct (fx_h fx); [eexists; reflexivity | discriminate].
 Qed.
 
-Lemma subs_total_l : forall cls f d,
-  wf d = true -> forallb (fun b => negb (f11h_box b)) (dboxes d) = true ->
-  exists d', dsubs cls f d = XOk d'.
+Lemma subs_total_l : forall fx cls f d,
+  wf d = true -> forallb (fun b => negb (f11h_box fx b)) (dboxes d) = true ->
+  exists d', dsubs fx cls f d = XOk d'.
 Proof.
-  intros cls f d W H. unfold dsubs. apply dmap_total_l; [exact W | apply box_subs_shape_l |].
+  intros fx cls f d W H. unfold dsubs. apply dmap_total_l; [exact W | apply box_subs_shape_l |].
   intros b Hb. apply box_subs_total. apply (forallb_In _ _ _ H) in Hb.
   apply negb_true_iff in Hb. exact Hb.
 Qed.
 
 Lemma subs_refuted_none_data_l : exists d,
-  dwf d = true /\ forall f, dsubs CCircuit f d = XErr XAttribute.
+  dwf d = true /\ forall f, dsubs pinned CCircuit f d = XErr XAttribute.
 Proof.
-  exists (PD [] [1] [PB KClassical 7 [] [1] false false DNone] [0]).
-  split; [reflexivity|]. intros f. reflexivity.
+  exists wit_f11h_bits. split; [reflexivity|]. intros f. reflexivity.
 Qed.
 
 (* ------------------------------------------------------------ 6. free symbols *)
@@ -355,10 +368,9 @@ Proof.
 Qed.
 
 Lemma sum_free_refuted_l : exists s,
-  sum_ok s = true /\ sum_free_expected s <> [] /\ sum_free s = [].
+  sum_ok s = true /\ sum_free_expected s <> [] /\ sum_free pinned s = [].
 Proof.
-  exists (PS [] [] [PD [] [] [PB KGen 0 [] [] false false (DScalar (PE true (poly_var 1)))] [0]]).
-  split; [reflexivity|]. split; [|reflexivity]. vm_compute. discriminate.
+  exists wit_f11i_sum. split; [reflexivity|]. split; [|reflexivity]. vm_compute. discriminate.
 Qed.
 
 (* ------------------------------------------------------------ 7. substituted symbols disappear *)
@@ -392,44 +404,55 @@ Proof.
   split; [|exact H2]. apply data_vars_In. exists e. split; assumption.
 Qed.
 
-Lemma box_subs_vars : forall cls f b b' y, closing (form_sigma f) ->
-  box_subs cls f b = XOk b' -> In y (data_vars (pdat b')) ->
-  In y (data_vars (pdat b)) /\ ~ In y (form_vars f).
+Lemma box_subs_cases : forall fx cls f b b', box_subs fx cls f b = XOk b' ->
+  (b' = b /\ guard (form_vars f) b = false) \/
+  pdat b' = data_map (expr_subs (form_sigma f)) (pdat b).
 Proof.
-  intros cls f b b' y Hc H Hy. unfold box_subs in H. unfold form_vars.
+  intros fx cls f b b' H. unfold box_subs in H.
   destruct (pk b) eqn:K.
-  - destruct (guard (form_vars f) b) eqn:G; inversion H; subst.
-    + cbn [rebuild_gen pdat] in Hy. apply data_map_subs_vars; assumption.
-    + split; [exact Hy|]. eapply guard_false; eassumption.
-  - inversion H; subst. cbn [rebuild_param pdat] in Hy. apply data_map_subs_vars; assumption.
-  - inversion H; subst. cbn [rebuild_param pdat] in Hy. apply data_map_subs_vars; assumption.
-  - inversion H; subst. cbn [rebuild_param pdat] in Hy. apply data_map_subs_vars; assumption.
-  - inversion H; subst. cbn [rebuild_param pdat] in Hy. apply data_map_subs_vars; assumption.
-  - destruct (pdat b) eqn:D; [discriminate| |]; inversion H; subst;
-      cbn [rebuild_classical pdat] in Hy; apply data_map_subs_vars; assumption.
-  - inversion H; subst. cbn [rebuild_spider pdat] in Hy. apply data_map_subs_vars; assumption.
-  - inversion H; subst. cbn [rebuild_spider pdat] in Hy. apply data_map_subs_vars; assumption.
+  - destruct (guard (form_vars f) b) eqn:G; inversion H; subst;
+      [right; reflexivity | left; split; reflexivity].
+  - inversion H; subst. right. reflexivity.
+  - inversion H; subst. right. reflexivity.
+  - inversion H; subst. right. reflexivity.
+  - inversion H; subst. right. reflexivity.
+  - right. destruct (pdat b) eqn:D.
+    + destruct (fx_h fx); [|discriminate]. inversion H; subst. rewrite D. reflexivity.
+    + inversion H; subst. reflexivity.
+    + inversion H; subst. reflexivity.
+  - inversion H; subst. right. reflexivity.
+  - inversion H; subst. right. reflexivity.
 Qed.
 
-Lemma subs_removes_symbols_l : forall cls f d d',
-  wf d = true -> closing (form_sigma f) -> dsubs cls f d = XOk d' ->
+Lemma box_subs_vars : forall fx cls f b b' y, closing (form_sigma f) ->
+  box_subs fx cls f b = XOk b' -> In y (data_vars (pdat b')) ->
+  In y (data_vars (pdat b)) /\ ~ In y (form_vars f).
+Proof.
+  intros fx cls f b b' y Hc H Hy. unfold form_vars.
+  destruct (box_subs_cases _ _ _ _ _ H) as [[E G]|E].
+  - subst b'. split; [exact Hy|]. eapply guard_false; eassumption.
+  - rewrite E in Hy. apply data_map_subs_vars; assumption.
+Qed.
+
+Lemma subs_removes_symbols_l : forall fx cls f d d',
+  wf d = true -> closing (form_sigma f) -> dsubs fx cls f d = XOk d' ->
   forall y, In y (dfree d') -> In y (dfree d) /\ ~ In y (form_vars f).
 Proof.
-  intros cls f d d' W Hc H y Hy. unfold dsubs in H.
-  destruct (dmap_spec_l _ _ _ W (box_subs_shape_l cls f) H) as [_ [_ [_ [H4 _]]]].
+  intros fx cls f d d' W Hc H y Hy. unfold dsubs in H.
+  destruct (dmap_spec_l _ _ _ W (box_subs_shape_l fx cls f) H) as [_ [_ [_ [H4 _]]]].
   apply free_symbols_exact_l in Hy. destruct Hy as [b' [Hb' Hy]].
   destruct (Forall2_In_r _ _ _ _ H4 Hb') as [b [Hb Hs]].
-  destruct (box_subs_vars _ _ _ _ _ Hc Hs Hy) as [H1 H2].
+  destruct (box_subs_vars _ _ _ _ _ _ Hc Hs Hy) as [H1 H2].
   split; [|exact H2]. apply free_symbols_exact_l. exists b. split; assumption.
 Qed.
 
-Lemma subs_all_closed_l : forall cls f d d',
+Lemma subs_all_closed_l : forall fx cls f d d',
   wf d = true -> closing (form_sigma f) ->
   (forall y, In y (dfree d) -> In y (form_vars f)) ->
-  dsubs cls f d = XOk d' -> dfree d' = [].
+  dsubs fx cls f d = XOk d' -> dfree d' = [].
 Proof.
-  intros cls f d d' W Hc Hall H. apply nil_if_no_In. intros y Hy.
-  destruct (subs_removes_symbols_l _ _ _ _ W Hc H y Hy) as [H1 H2].
+  intros fx cls f d d' W Hc Hall H. apply nil_if_no_In. intros y Hy.
+  destruct (subs_removes_symbols_l _ _ _ _ _ W Hc H y Hy) as [H1 H2].
   apply H2. apply Hall. exact H1.
 Qed.
 
@@ -465,78 +488,68 @@ Proof.
   eapply guard_false; eassumption.
 Qed.
 
-Lemma box_subs_data : forall cls f b b' rho, box_wf b = true ->
-  box_subs cls f b = XOk b' ->
+Lemma box_subs_data : forall fx cls f b b' rho, box_wf b = true ->
+  box_subs fx cls f b = XOk b' ->
   ground_data rho (pdat b') = ground_data (env_seq rho (polys_of (form_sigma f))) (pdat b).
 Proof.
-  intros cls f b b' rho W H. assert (Wd := box_wf_data _ W). unfold box_subs in H.
-  destruct (pk b) eqn:K.
-  - destruct (guard (form_vars f) b) eqn:G; inversion H; subst.
-    + cbn [rebuild_gen pdat]. apply ground_data_subs. exact Wd.
-    + apply ground_data_unguarded; assumption.
-  - inversion H; subst. cbn [rebuild_param pdat]. apply ground_data_subs. exact Wd.
-  - inversion H; subst. cbn [rebuild_param pdat]. apply ground_data_subs. exact Wd.
-  - inversion H; subst. cbn [rebuild_param pdat]. apply ground_data_subs. exact Wd.
-  - inversion H; subst. cbn [rebuild_param pdat]. apply ground_data_subs. exact Wd.
-  - assert (Hb' : b' = rebuild_classical b (data_map (expr_subs (form_sigma f)) (pdat b))).
-    { destruct (pdat b); [discriminate| |]; inversion H; reflexivity. }
-    subst b'. cbn [rebuild_classical pdat]. apply ground_data_subs. exact Wd.
-  - inversion H; subst. cbn [rebuild_spider pdat]. apply ground_data_subs. exact Wd.
-  - inversion H; subst. cbn [rebuild_spider pdat]. apply ground_data_subs. exact Wd.
+  intros fx cls f b b' rho W H. assert (Wd := box_wf_data _ W).
+  destruct (box_subs_cases _ _ _ _ _ H) as [[E G]|E].
+  - subst b'. apply ground_data_unguarded; assumption.
+  - rewrite E. apply ground_data_subs. exact Wd.
 Qed.
 
-Lemma box_subs_ground_nf : forall cls f b b' rho, box_wf b = true ->
-  box_subs cls f b = XOk b' ->
+Lemma box_subs_ground_nf : forall fx cls f b b' rho, box_wf b = true ->
+  box_subs fx cls f b = XOk b' ->
   ground_box_nf rho b' = ground_box_nf (env_seq rho (polys_of (form_sigma f))) b.
 Proof.
-  intros cls f b b' rho W H. unfold ground_box_nf.
-  destruct (box_subs_shape_l _ _ _ _ H) as [H1 [H2 [H3 H4]]].
-  rewrite H1, H2, H3, H4, (box_subs_data _ _ _ _ rho W H). reflexivity.
+  intros fx cls f b b' rho W H. unfold ground_box_nf.
+  destruct (box_subs_shape_l _ _ _ _ _ H) as [H1 [H2 [H3 H4]]].
+  rewrite H1, H2, H3, H4, (box_subs_data _ _ _ _ _ rho W H). reflexivity.
 Qed.
 
-Lemma box_subs_ground : forall cls f b b' rho, box_wf b = true ->
-  f11b_box cls (form_vars f) b = false -> f11c_box b = false ->
-  box_subs cls f b = XOk b' ->
+Lemma box_subs_ground : forall fx cls f b b' rho, box_wf b = true ->
+  f11b_box fx cls (form_vars f) b = false -> f11c_box fx b = false ->
+  box_subs fx cls f b = XOk b' ->
   ground_box rho b' = ground_box (env_seq rho (polys_of (form_sigma f))) b.
 Proof.
-  intros cls f b b' rho W B C H. unfold ground_box.
-  destruct (box_subs_shape_l _ _ _ _ H) as [H1 [H2 [H3 H4]]].
-  destruct (box_subs_flags_l _ _ _ _ W B C H) as [H5 H6].
-  rewrite H1, H2, H3, H4, H5, H6, (box_subs_data _ _ _ _ rho W H). reflexivity.
+  intros fx cls f b b' rho W B C H. unfold ground_box.
+  destruct (box_subs_shape_l _ _ _ _ _ H) as [H1 [H2 [H3 H4]]].
+  destruct (box_subs_flags_l _ _ _ _ _ W B C H) as [H5 H6].
+  rewrite H1, H2, H3, H4, H5, H6, (box_subs_data _ _ _ _ _ rho W H). reflexivity.
 Qed.
 
-Lemma subs_eval_commute_l : forall cls f d d' rho,
-  dwf d = true -> dsubs cls f d = XOk d' ->
+Lemma subs_eval_commute_l : forall fx cls f d d' rho,
+  dwf d = true -> dsubs fx cls f d = XOk d' ->
   ground_nf rho d' = ground_nf (env_seq rho (polys_of (form_sigma f))) d.
 Proof.
-  intros cls f d d' rho W H. apply dwf_inv in W. destruct W as [W Wb]. unfold dsubs in H.
-  destruct (dmap_spec_l _ _ _ W (box_subs_shape_l cls f) H) as [H1 [H2 [H3 [H4 _]]]].
+  intros fx cls f d d' rho W H. apply dwf_inv in W. destruct W as [W Wb]. unfold dsubs in H.
+  destruct (dmap_spec_l _ _ _ W (box_subs_shape_l fx cls f) H) as [H1 [H2 [H3 [H4 _]]]].
   unfold ground_nf. rewrite H1, H2, H3. f_equal.
   eapply Forall2_map_eq; [exact H4|]. intros a b Ha Hab.
   eapply box_subs_ground_nf; [apply Wb; exact Ha | exact Hab].
 Qed.
 
-Lemma subs_eval_commute_flags_l : forall cls f d d' rho,
-  dwf d = true -> no_flag_trigger cls (form_vars f) d = true -> dsubs cls f d = XOk d' ->
+Lemma subs_eval_commute_flags_l : forall fx cls f d d' rho,
+  dwf d = true -> no_flag_trigger fx cls (form_vars f) d = true -> dsubs fx cls f d = XOk d' ->
   ground rho d' = ground (env_seq rho (polys_of (form_sigma f))) d.
 Proof.
-  intros cls f d d' rho W N H. apply dwf_inv in W. destruct W as [W Wb]. unfold dsubs in H.
-  destruct (dmap_spec_l _ _ _ W (box_subs_shape_l cls f) H) as [H1 [H2 [H3 [H4 _]]]].
+  intros fx cls f d d' rho W N H. apply dwf_inv in W. destruct W as [W Wb]. unfold dsubs in H.
+  destruct (dmap_spec_l _ _ _ W (box_subs_shape_l fx cls f) H) as [H1 [H2 [H3 [H4 _]]]].
   unfold ground. rewrite H1, H2, H3. f_equal.
   eapply Forall2_map_eq; [exact H4|]. intros a b Ha Hab.
-  destruct (no_flag_trigger_inv _ _ _ _ N Ha) as [N1 N2].
+  destruct (no_flag_trigger_inv _ _ _ _ _ N Ha) as [N1 N2].
   eapply box_subs_ground; [apply Wb; exact Ha | exact N1 | exact N2 | exact Hab].
 Qed.
 
-Lemma subs_eval_commute_abstract_l : forall (M : Type) (ev : gdiagram -> M) cls f d d' rho,
-  dwf d = true -> no_flag_trigger cls (form_vars f) d = true -> dsubs cls f d = XOk d' ->
+Lemma subs_eval_commute_abstract_l : forall fx (M : Type) (ev : gdiagram -> M) cls f d d' rho,
+  dwf d = true -> no_flag_trigger fx cls (form_vars f) d = true -> dsubs fx cls f d = XOk d' ->
   ev (ground rho d') = ev (ground (env_seq rho (polys_of (form_sigma f))) d).
 Proof.
-  intros M ev cls f d d' rho W N H. f_equal. eapply subs_eval_commute_flags_l; eassumption.
+  intros fx M ev cls f d d' rho W N H. f_equal. eapply subs_eval_commute_flags_l; eassumption.
 Qed.
 
 Lemma subs_eval_commute_refuted_l : exists (ev : gdiagram -> bool) f d d' rho,
-  dwf d = true /\ dsubs CCircuit f d = XOk d' /\
+  dwf d = true /\ dsubs pinned CCircuit f d = XOk d' /\
   ev (ground rho d') <> ev (ground (env_seq rho (polys_of (form_sigma f))) d).
 Proof.
   exists (fun g => existsb gmixed (gboxes g)).
@@ -600,14 +613,14 @@ Proof.
     try discriminate; split; reflexivity.
 Qed.
 
-Lemma box_lambdify_eq_subs : forall cls syms vals b b1 b2 rho,
+Lemma box_lambdify_eq_subs : forall fx cls syms vals b b1 b2 rho,
   box_wf b = true -> length syms = length vals ->
   Forall (fun v => poly_vars (epoly v) = []) vals ->
-  box_lambdify cls syms vals b = XOk b1 ->
-  box_subs cls (SList (combine syms vals)) b = XOk b2 ->
+  box_lambdify fx cls syms vals b = XOk b1 ->
+  box_subs fx cls (SList (combine syms vals)) b = XOk b2 ->
   ground_box rho b1 = ground_box rho b2.
 Proof.
-  intros cls syms vals b b1 b2 rho W L Hc H1 H2.
+  intros fx cls syms vals b b1 b2 rho W L Hc H1 H2.
   assert (Wd := box_wf_data _ W). assert (Hp := closed_vals_polys syms vals Hc).
   unfold box_lambdify in H1. unfold box_subs, form_vars in H2. cbn [form_sigma] in H2.
   rewrite (map_fst_combine _ _ L) in H2.
@@ -616,7 +629,7 @@ Proof.
   destruct (pk b) eqn:K.
   - (* KGen *)
     destruct (guard syms b) eqn:G.
-    + assert (E1 : b1 = rebuild_gen cls b (data_map (expr_lambdify (combine syms vals)) (pdat b))).
+    + assert (E1 : b1 = rebuild_gen fx cls b (data_map (expr_lambdify (combine syms vals)) (pdat b))).
       { destruct (pdat b); try (inversion H1; reflexivity).
         destruct (existsb _ es); [discriminate | inversion H1; reflexivity]. }
       inversion H2; subst. unfold ground_box, rebuild_gen; cbn [pk pname pdom pcod pdag pmixed pdat].
@@ -630,7 +643,8 @@ Proof.
     f_equal. apply ground_data_lam_eq_subs; assumption.
   - inversion H1; inversion H2; subst. unfold ground_box, rebuild_param; cbn [pk pname pdom pcod pdag pmixed pdat].
     f_equal. apply ground_data_lam_eq_subs; assumption.
-  - destruct (pdat b); discriminate.
+  - destruct (pdat b); try discriminate. destruct (fx_h fx); [|discriminate].
+    inversion H1; inversion H2; subst. reflexivity.
   - destruct (guard syms b) eqn:G; [discriminate|].
     destruct (box_wf_spider b W (or_introl K)) as [Fd Fm].
     inversion H1; inversion H2; subst. unfold ground_box, rebuild_spider; cbn [pk pname pdom pcod pdag pmixed pdat].
@@ -643,17 +657,17 @@ Proof.
     apply ground_data_unguarded; [exact W|]. rewrite (map_fst_combine _ _ L). exact G.
 Qed.
 
-Lemma lambdify_eq_subs_l : forall cls syms vals d d1 d2 rho,
+Lemma lambdify_eq_subs_l : forall fx cls syms vals d d1 d2 rho,
   dwf d = true -> length syms = length vals ->
   Forall (fun v => poly_vars (epoly v) = []) vals ->
-  dlambdify cls syms vals d = XOk d1 ->
-  dsubs cls (SList (combine syms vals)) d = XOk d2 ->
+  dlambdify fx cls syms vals d = XOk d1 ->
+  dsubs fx cls (SList (combine syms vals)) d = XOk d2 ->
   ground rho d1 = ground rho d2.
 Proof.
-  intros cls syms vals d d1 d2 rho W L Hc H1 H2. apply dwf_inv in W. destruct W as [W Wb].
+  intros fx cls syms vals d d1 d2 rho W L Hc H1 H2. apply dwf_inv in W. destruct W as [W Wb].
   unfold dlambdify in H1. unfold dsubs in H2.
-  destruct (dmap_spec_l _ _ _ W (box_lambdify_shape_l cls syms vals) H1) as [A1 [A2 [A3 [A4 _]]]].
-  destruct (dmap_spec_l _ _ _ W (box_subs_shape_l cls _) H2) as [B1 [B2 [B3 [B4 _]]]].
+  destruct (dmap_spec_l _ _ _ W (box_lambdify_shape_l fx cls syms vals) H1) as [A1 [A2 [A3 [A4 _]]]].
+  destruct (dmap_spec_l _ _ _ W (box_subs_shape_l fx cls _) H2) as [B1 [B2 [B3 [B4 _]]]].
   unfold ground. rewrite A1, A2, A3, B1, B2, B3. f_equal.
   eapply Forall2_map_eq2; [exact A4 | exact B4 |]. intros a b c Ha R1 R2.
   eapply box_lambdify_eq_subs; [apply Wb; exact Ha | exact L | exact Hc | exact R1 | exact R2].
@@ -669,35 +683,38 @@ Definition erase (d : pdiagram) : pdiagram :=
 (* NOT asserted: syntactic agreement needs the polynomials to be in canonical
    form (subs_seq / subs_sim re-normalise), which dwf does not say *)
 Definition lambdify_eq_subs_syntactic_stmt : Prop :=
-  forall cls syms vals d d1 d2,
+  forall fx cls syms vals d d1 d2,
   dwf d = true -> length syms = length vals ->
   Forall (fun v => poly_vars (epoly v) = []) vals ->
-  dlambdify cls syms vals d = XOk d1 ->
-  dsubs cls (SList (combine syms vals)) d = XOk d2 ->
+  dlambdify fx cls syms vals d = XOk d1 ->
+  dsubs fx cls (SList (combine syms vals)) d = XOk d2 ->
   erase d1 = erase d2.
 
-Lemma lambdify_refuted_zx_l : exists d syms vals d2,
-  dwf d = true /\ dlambdify CZX syms vals d = XErr XType /\
-  dsubs CZX (SList (combine syms vals)) d = XOk d2.
+Lemma lambdify_refuted_zx_l : forall fx, exists d syms vals d2,
+  dwf d = true /\ dlambdify fx CZX syms vals d = XErr XType /\
+  dsubs fx CZX (SList (combine syms vals)) d = XOk d2.
 Proof.
+  intros fx.
   exists (PD [] [1] [PB KSpider 0 [] [1] false false (DScalar (PE true (poly_var 1)))] [0]).
   exists [1]. exists [PE false (poly_const (Q2Qc (1#2)))]. eexists.
   split; [reflexivity|]. split; [reflexivity|]. vm_compute. reflexivity.
 Qed.
 
-Lemma lambdify_refuted_classical_l : exists d syms vals d2,
-  dwf d = true /\ dlambdify CCircuit syms vals d = XErr XType /\
-  dsubs CCircuit (SList (combine syms vals)) d = XOk d2.
+Lemma lambdify_refuted_classical_l : forall fx, exists d syms vals d2,
+  dwf d = true /\ dlambdify fx CCircuit syms vals d = XErr XType /\
+  dsubs fx CCircuit (SList (combine syms vals)) d = XOk d2.
 Proof.
+  intros fx.
   exists (PD [1] [1] [PB KClassical 0 [1] [1] false false (DList [PE true (poly_var 1)])] [0]).
   exists [1]. exists [PE false (poly_const (Q2Qc (1#2)))]. eexists.
   split; [reflexivity|]. split; [reflexivity|]. vm_compute. reflexivity.
 Qed.
 
-Lemma lambdify_refuted_partial_list_l : exists d syms vals d2,
-  dwf d = true /\ dlambdify CTensor syms vals d = XErr XName /\
-  dsubs CTensor (SList (combine syms vals)) d = XOk d2.
+Lemma lambdify_refuted_partial_list_l : forall fx, exists d syms vals d2,
+  dwf d = true /\ dlambdify fx CTensor syms vals d = XErr XName /\
+  dsubs fx CTensor (SList (combine syms vals)) d = XOk d2.
 Proof.
+  intros fx.
   exists (PD [1] [1] [PB KGen 0 [1] [1] false false
                         (DList [PE true (poly_var 1); PE true (poly_var 2)])] [0]).
   exists [1]. exists [PE false (poly_const (Q2Qc (1#2)))]. eexists.
@@ -705,11 +722,10 @@ Proof.
 Qed.
 
 Lemma sum_lambdify_refuted_l : exists s syms vals s',
-  sum_ok s = true /\ sum_lambdify CCircuit syms vals s = XOk s /\
-  sum_subs CCircuit (SList (combine syms vals)) s = XOk s' /\ s' <> s.
+  sum_ok s = true /\ sum_lambdify pinned CCircuit syms vals s = XOk s /\
+  sum_subs pinned CCircuit (SList (combine syms vals)) s = XOk s' /\ s' <> s.
 Proof.
-  exists (PS [] [] [PD [] [] [PB KGen 0 [] [] false false (DScalar (PE true (poly_var 1)))] [0]]).
-  exists [1]. exists [PE false (poly_const (Q2Qc 2))]. eexists.
+  exists wit_f11i_sum. exists [1]. exists [PE false (poly_const (Q2Qc 2))]. eexists.
   split; [reflexivity|]. split; [reflexivity|]. split; [vm_compute; reflexivity|].
   intros E. discriminate E.
 Qed.
@@ -756,13 +772,13 @@ Proof.
   destruct Hy as [e [He Hy]]. unfold expr_vars in Hy. rewrite (H e He) in Hy. destruct Hy.
 Qed.
 
-Lemma box_lambdify_closed : forall cls syms vals b b',
+Lemma box_lambdify_closed : forall fx cls syms vals b b',
   length syms = length vals -> Forall (fun v => esym v = false /\ poly_vars (epoly v) = []) vals ->
   (forall y, In y (data_vars (pdat b)) -> In y syms) ->
-  box_lambdify cls syms vals b = XOk b' ->
+  box_lambdify fx cls syms vals b = XOk b' ->
   data_vars (pdat b') = [] /\ box_evaluable b' = true.
 Proof.
-  intros cls syms vals b b' L Hv Hin H.
+  intros fx cls syms vals b b' L Hv Hin H.
   assert (Hes := data_lam_esym syms vals (pdat b) L Hv Hin).
   assert (Hnil := data_vars_nil_of_esym _ Hes).
   assert (Hun : guard syms b = false -> data_vars (pdat b) = []).
@@ -772,7 +788,7 @@ Proof.
   rewrite A in H. cbn [negb] in H.
   destruct (pk b) eqn:K.
   - destruct (guard syms b) eqn:G.
-    + assert (E1 : b' = rebuild_gen cls b (data_map (expr_lambdify (combine syms vals)) (pdat b))).
+    + assert (E1 : b' = rebuild_gen fx cls b (data_map (expr_lambdify (combine syms vals)) (pdat b))).
       { destruct (pdat b); try (inversion H; reflexivity).
         destruct (existsb _ es); [discriminate | inversion H; reflexivity]. }
       subst b'. split; [exact Hnil | reflexivity].
@@ -785,23 +801,24 @@ Proof.
   - inversion H; subst. split; [exact Hnil|]. unfold box_evaluable, rebuild_param; cbn [pk pdat]. rewrite K. reflexivity.
   - inversion H; subst. split; [exact Hnil|]. unfold box_evaluable, rebuild_param; cbn [pk pdat]. rewrite K. reflexivity.
   - inversion H; subst. split; [exact Hnil|]. unfold box_evaluable, rebuild_param; cbn [pk pdat]. rewrite K. reflexivity.
-  - destruct (pdat b); discriminate.
+  - destruct (pdat b) eqn:D; try discriminate. destruct (fx_h fx); [|discriminate].
+    inversion H; subst. rewrite D. split; [reflexivity|]. unfold box_evaluable. rewrite K. reflexivity.
   - destruct (guard syms b) eqn:G; [discriminate|]. inversion H; subst.
     split; [apply Hun; reflexivity|]. unfold box_evaluable. rewrite K. reflexivity.
   - destruct (guard syms b) eqn:G; [discriminate|]. inversion H; subst.
     split; [apply Hun; reflexivity|]. unfold box_evaluable. rewrite K. reflexivity.
 Qed.
 
-Lemma lambdify_all_evaluable_l : forall cls syms vals d d',
+Lemma lambdify_all_evaluable_l : forall fx cls syms vals d d',
   dwf d = true -> length syms = length vals ->
   Forall (fun v => esym v = false /\ poly_vars (epoly v) = []) vals ->
   (forall y, In y (dfree d) -> In y syms) ->
-  dlambdify cls syms vals d = XOk d' ->
+  dlambdify fx cls syms vals d = XOk d' ->
   dfree d' = [] /\ deval_status d' = XOk tt.
 Proof.
-  intros cls syms vals d d' W L Hv Hall H. apply dwf_inv in W. destruct W as [W _].
+  intros fx cls syms vals d d' W L Hv Hall H. apply dwf_inv in W. destruct W as [W _].
   unfold dlambdify in H.
-  destruct (dmap_spec_l _ _ _ W (box_lambdify_shape_l cls syms vals) H) as [_ [_ [_ [H4 _]]]].
+  destruct (dmap_spec_l _ _ _ W (box_lambdify_shape_l fx cls syms vals) H) as [_ [_ [_ [H4 _]]]].
   assert (Hb : forall b', In b' (dboxes d') -> data_vars (pdat b') = [] /\ box_evaluable b' = true).
   { intros b' Hb'. destruct (Forall2_In_r _ _ _ _ H4 Hb') as [b [Hb Hs]].
     eapply box_lambdify_closed; [exact L | exact Hv | | exact Hs].
@@ -815,10 +832,11 @@ Proof.
     rewrite F. reflexivity.
 Qed.
 
-Lemma subs_closed_not_evaluable_refuted_l : exists f d d',
-  dwf d = true /\ closing (form_sigma f) /\ dsubs CCircuit f d = XOk d' /\
+Lemma subs_closed_not_evaluable_refuted_l : forall fx, exists f d d',
+  dwf d = true /\ closing (form_sigma f) /\ dsubs fx CCircuit f d = XOk d' /\
   dfree d' = [] /\ deval_status d' = XErr XType.
 Proof.
+  intros fx.
   exists (SSingle 1 (PE true (poly_const (Q2Qc (1#4))))).
   exists (PD [2] [2] [PB KRot 1 [2] [2] false false (DScalar (PE true (poly_var 1)))] [0]).
   eexists. split; [reflexivity|]. split; [repeat constructor|].
@@ -826,33 +844,137 @@ Proof.
 Qed.
 
 (* ------------------------------------------------------------ 11. tensors *)
-Lemma tensor_subs_correct_l : forall f t,
-  forallb esym (tents t) = true -> tensor_subs f t = XOk (tensor_subs_expected f t).
+Lemma tensor_subs_correct_l : forall fx f t,
+  forallb esym (tents t) = true -> tensor_subs fx f t = XOk (tensor_subs_expected f t).
 Proof.
-  intros [x v|s] t H; unfold tensor_subs, tensor_subs_expected; cbn [form_sigma].
+  intros fx f t H. unfold tensor_subs. destruct (fx_d fx); [reflexivity|].
+  destruct f as [x v|s]; unfold tensor_subs_expected; cbn [form_sigma].
   - f_equal. f_equal. apply map_ext_in. intros e He. rewrite (forallb_In _ _ _ H He). reflexivity.
   - rewrite H. reflexivity.
 Qed.
 
 Lemma tensor_subs_refuted_single_l : exists x v t t',
-  tensor_subs (SSingle x v) t = XOk t' /\ t' <> tensor_subs_expected (SSingle x v) t.
+  tensor_subs pinned (SSingle x v) t = XOk t' /\ t' <> tensor_subs_expected (SSingle x v) t.
 Proof.
   exists 1. exists (PE false (poly_const (Q2Qc 2))).
   exists (PT [] [] [PE false (poly_const (Q2Qc 3))]). eexists.
   split; [reflexivity|]. intros E. discriminate E.
 Qed.
 
-Lemma tensor_subs_refuted_list_l : exists s t, tensor_subs (SList s) t = XErr XValue.
+Lemma tensor_subs_refuted_list_l : exists s t, tensor_subs pinned (SList s) t = XErr XValue.
 Proof.
   exists [(1, PE false (poly_const (Q2Qc 2)))].
   exists (PT [] [] [PE true (poly_var 1); PE false (poly_const (Q2Qc 3))]). reflexivity.
 Qed.
 
-Lemma cqmap_subs_refuted_l : forall f t, cqmap_subs f t = XErr XType.
-Proof. reflexivity. Qed.
+Lemma cqmap_subs_refuted_l : forall fx f t, cq_nonempty t = true ->
+  exists e, cqmap_subs fx f t = XErr e.
+Proof.
+  intros fx f t H. unfold cqmap_subs. rewrite H. destruct f as [x v|s].
+  - destruct (tensor_subs fx (SSingle x v) t); eexists; reflexivity.
+  - destruct (forallb (fun e => negb (esym e)) (tents t)); [eexists; reflexivity|].
+    destruct (tensor_subs fx (SList s) t); eexists; reflexivity.
+Qed.
 
 Lemma tensor_lambdify_refuted_l : forall syms vals t, tensor_lambdify syms vals t = XErr XType.
 Proof. reflexivity. Qed.
+
+(* ------------------------------------------------------------ 13. the repaired code *)
+Lemma f11b_box_fixed : forall fx cls vars b, fx_b fx = true -> f11b_box fx cls vars b = false.
+Proof. intros fx cls vars b H. unfold f11b_box. rewrite H. reflexivity. Qed.
+Lemma f11c_box_fixed : forall fx b, fx_c fx = true -> f11c_box fx b = false.
+Proof. intros fx b H. unfold f11c_box. rewrite H. reflexivity. Qed.
+Lemma f11h_box_fixed : forall fx b, fx_h fx = true -> f11h_box fx b = false.
+Proof. intros fx b H. unfold f11h_box. rewrite H. reflexivity. Qed.
+
+Lemma no_flag_trigger_fixed : forall fx cls vars d,
+  fx_b fx = true -> fx_c fx = true -> no_flag_trigger fx cls vars d = true.
+Proof.
+  intros fx cls vars d Hb Hc. unfold no_flag_trigger. apply forallb_forall. intros b _.
+  rewrite (f11b_box_fixed _ _ _ _ Hb), (f11c_box_fixed _ _ Hc). reflexivity.
+Qed.
+
+Lemma subs_preserves_flags_repaired_l : forall fx cls f d d',
+  fx_b fx = true -> fx_c fx = true -> dwf d = true -> dsubs fx cls f d = XOk d' ->
+  Forall2 same_flags (dboxes d) (dboxes d').
+Proof.
+  intros fx cls f d d' Hb Hc W H.
+  exact (subs_preserves_flags_l fx cls f d d' W (no_flag_trigger_fixed fx cls _ d Hb Hc) H).
+Qed.
+
+Lemma subs_eval_commute_repaired_l : forall fx cls f d d' rho,
+  fx_b fx = true -> fx_c fx = true -> dwf d = true -> dsubs fx cls f d = XOk d' ->
+  ground rho d' = ground (env_seq rho (polys_of (form_sigma f))) d.
+Proof.
+  intros fx cls f d d' rho Hb Hc W H.
+  exact (subs_eval_commute_flags_l fx cls f d d' rho W (no_flag_trigger_fixed fx cls _ d Hb Hc) H).
+Qed.
+
+Lemma subs_total_repaired_l : forall fx cls f d,
+  fx_h fx = true -> wf d = true -> exists d', dsubs fx cls f d = XOk d'.
+Proof.
+  intros fx cls f d Hh W. apply subs_total_l; [exact W|]. apply forallb_forall. intros b _.
+  rewrite (f11h_box_fixed _ _ Hh). reflexivity.
+Qed.
+
+Lemma sum_free_repaired_l : forall fx s, fx_i fx = true ->
+  forall x, In x (sum_free fx s) <-> exists t, In t (sterms s) /\ In x (dfree t).
+Proof.
+  intros fx s Hi x. unfold sum_free. rewrite Hi. unfold sum_free_expected.
+  rewrite In_zset_of. apply in_flat_map.
+Qed.
+
+Lemma sum_terms_inv : forall (step : pdiagram -> xres pdiagram) s r,
+  (dox ts <- xmapM step (sterms s);
+   let r := PS (sdom s) (scod s) ts in if sum_ok r then XOk r else XErr XAxiom) = XOk r ->
+  Forall2 (fun t t' => step t = XOk t') (sterms s) (sterms r) /\ sdom r = sdom s /\ scod r = scod s.
+Proof.
+  intros step s r H. destruct (xmapM step (sterms s)) as [ts|e] eqn:E; cbn [xbind] in H; [|discriminate].
+  cbv zeta in H. destruct (sum_ok _); [|discriminate]. inversion H; subst. cbn.
+  split; [apply xmapM_Forall2; exact E | split; reflexivity].
+Qed.
+
+Lemma sum_lambdify_repaired_l : forall fx cls syms vals s s1 s2 rho,
+  fx_j fx = true -> forallb dwf (sterms s) = true -> length syms = length vals ->
+  Forall (fun v => poly_vars (epoly v) = []) vals ->
+  sum_lambdify fx cls syms vals s = XOk s1 ->
+  sum_subs fx cls (SList (combine syms vals)) s = XOk s2 ->
+  map (ground rho) (sterms s1) = map (ground rho) (sterms s2) /\ sdom s1 = sdom s2 /\ scod s1 = scod s2.
+Proof.
+  intros fx cls syms vals s s1 s2 rho Hj W L Hc H1 H2.
+  unfold sum_lambdify in H1. rewrite Hj in H1. unfold sum_subs in H2.
+  apply sum_terms_inv in H1. apply sum_terms_inv in H2.
+  destruct H1 as [F1 [A1 A2]]. destruct H2 as [F2 [B1 B2]].
+  split; [|split; congruence].
+  eapply Forall2_map_eq2; [exact F1 | exact F2 |]. intros t t1 t2 Ht R1 R2.
+  eapply lambdify_eq_subs_l; [exact (forallb_In _ _ _ W Ht) | exact L | exact Hc | exact R1 | exact R2].
+Qed.
+
+Lemma tensor_subs_repaired_l : forall fx f t,
+  fx_d fx = true -> tensor_subs fx f t = XOk (tensor_subs_expected f t).
+Proof. intros fx f t H. unfold tensor_subs. rewrite H. reflexivity. Qed.
+
+(* the witnesses of F11b, F11c, F11h, F11i replayed on the repaired code *)
+Lemma subs_flags_fixed_mixed_l : exists f b b',
+  box_wf b = true /\ box_subs repaired CCircuit f b = XOk b' /\ pmixed b = true /\ pmixed b' = true.
+Proof. exists wit_form. exists wit_f11b_scalar. eexists. repeat split. Qed.
+
+Lemma subs_flags_fixed_pure_l : exists f b b',
+  box_wf b = true /\ box_subs repaired CCircuit f b = XOk b' /\ pmixed b = false /\ pmixed b' = false.
+Proof. exists wit_form. exists wit_f11b_pure. eexists. repeat split. Qed.
+
+Lemma subs_flags_fixed_dagger_l : exists f b b',
+  box_wf b = true /\ box_subs repaired CCircuit f b = XOk b' /\ pdag b = true /\ pdag b' = true.
+Proof. exists wit_form. exists wit_f11c_gate. eexists. repeat split. Qed.
+
+Lemma subs_fixed_none_data_l :
+  dwf wit_f11h_bits = true /\ forall f, dsubs repaired CCircuit f wit_f11h_bits = XOk wit_f11h_bits.
+Proof. split; [reflexivity|]. intros f. reflexivity. Qed.
+
+Lemma sum_free_fixed_l :
+  sum_free repaired wit_f11i_sum = sum_free_expected wit_f11i_sum /\
+  sum_free repaired wit_f11i_sum <> [].
+Proof. split; [reflexivity|]. vm_compute. discriminate. Qed.
 
 (* ------------------------------------------------------------ 12. non-vacuity *)
 Definition ex_q (n : Z) (d : positive) : Qc := Q2Qc (n # d).
@@ -868,24 +990,27 @@ Definition ex_form : sform := SList [(1, PE true (poly_var 2)); (2, PE false (po
 
 Example ex_dwf : dwf ex_diagram = true.
 Proof. vm_compute. reflexivity. Qed.
-Example ex_no_flag_trigger : no_flag_trigger CCircuit (form_vars ex_form) ex_diagram = true.
+Example ex_no_flag_trigger : no_flag_trigger pinned CCircuit (form_vars ex_form) ex_diagram = true.
 Proof. vm_compute. reflexivity. Qed.
 Example ex_free : dfree ex_diagram = [1; 2].
 Proof. vm_compute. reflexivity. Qed.
 Example ex_dsubs :
-  dsubs CCircuit ex_form ex_diagram =
+  dsubs pinned CCircuit ex_form ex_diagram =
   XOk (PD [2] [2]
      [ PB KQScalar 0 [] [] false false (DScalar (PE true [([], ex_q 1 4)]));
        PB KRot 1 [2] [2] false false (DScalar (PE true [([], ex_q 3 2)]));
        PB KGen 5 [2] [2] true false DNone ]
      [0; 0; 0]).
 Proof. vm_compute. reflexivity. Qed.
+Example ex_dsubs_repaired :
+  dsubs repaired CCircuit ex_form ex_diagram = dsubs pinned CCircuit ex_form ex_diagram.
+Proof. vm_compute. reflexivity. Qed.
 Example ex_closing : closing (form_sigma (SSingle 1 (PE true (poly_const (ex_q 1 4))))).
 Proof. repeat constructor. Qed.
 (* both sides of subs_eval_commute_flags on the example, computed *)
-Example ex_commute : forall d', dsubs CCircuit ex_form ex_diagram = XOk d' ->
+Example ex_commute : forall d', dsubs pinned CCircuit ex_form ex_diagram = XOk d' ->
   ground (fun _ => ex_q 7 1) d' =
   ground (env_seq (fun _ => ex_q 7 1) (polys_of (form_sigma ex_form))) ex_diagram.
 Proof.
-  intros d' H. apply (subs_eval_commute_flags_l CCircuit); [exact ex_dwf | exact ex_no_flag_trigger | exact H].
+  intros d' H. apply (subs_eval_commute_flags_l pinned CCircuit); [exact ex_dwf | exact ex_no_flag_trigger | exact H].
 Qed.
